@@ -77,13 +77,15 @@ theorem step_agree (dir : Str) (s1 s2 : RState) (raw : Bytes) (hl : s1.l = s2.l)
         · simp at h
         · split at h
           · simp at h
-          · cases he : onEndBlock s2.l with
-            | error e => simp [he] at h
-            | ok r =>
-              obtain ⟨line, l'⟩ := r
-              simp only [he] at h ⊢
-              cases h
-              exact ⟨_, rfl, rfl, by simp [ho]⟩
+          · split at h
+            · simp at h
+            · cases he : onEndBlock s2.l with
+              | error e => simp [he] at h
+              | ok r =>
+                obtain ⟨line, l'⟩ := r
+                simp only [he] at h ⊢
+                cases h
+                exact ⟨_, rfl, rfl, by simp [ho]⟩
 
 /-- **C08 (list = extract)**: for every byte string offered as a tape, whenever extraction
     completes, listing completes too and both print the same report (names, sizes, block counts,
@@ -106,24 +108,24 @@ theorem list_extract_agree_blocks (dir : Str) (blocks : List Bytes) : ∀ (s1 s2
         simp only [e1]
         exact ih s1m s2m hl' ho' s2' h
 
-theorem list_extract_agree_dir (verbose : Bool) (dir : Str) (tape : Bytes)
-    (h : (readLoop true dir { l := { verbose := verbose } } (readAll tape)).1 = .ret 0) :
+theorem list_extract_agree_dir (verbose : Bool) (dir : Str) (tape : Bytes) (k : Option Str)
+    (h : (readLoop true dir { l := { verbose := verbose }, keep := k } (readAll tape)).1 = .ret 0) :
     (enumerate verbose tape).status = .ret 0 ∧
-    (enumerate verbose tape).out = (readLoop true dir { l := { verbose := verbose } } (readAll tape)).2.out := by
+    (enumerate verbose tape).out = (readLoop true dir { l := { verbose := verbose }, keep := k } (readAll tape)).2.out := by
   unfold enumerate
-  cases hx : readLoop true dir { l := { verbose := verbose } } (readAll tape) with
+  cases hx : readLoop true dir { l := { verbose := verbose }, keep := k } (readAll tape) with
   | mk st s2' =>
     rw [hx] at h
     simp only at h
     subst h
     obtain ⟨s1', e1, ho⟩ := list_extract_agree_blocks dir (readAll tape) { l := { verbose := verbose } }
-      { l := { verbose := verbose } } rfl rfl s2' hx
+      { l := { verbose := verbose }, keep := k } rfl rfl s2' hx
     simp [e1, ho]
 
 theorem list_extract_agree (verbose : Bool) (archive : Str) (into : Option Str) (tape : Bytes)
     (h : (extract verbose archive into tape).status = .ret 0) :
     (enumerate verbose tape).status = .ret 0 ∧ (enumerate verbose tape).out = (extract verbose archive into tape).out := by
-  exact list_extract_agree_dir verbose (targetDirOf archive into) tape h
+  exact list_extract_agree_dir verbose (targetDirOf archive into) tape (some archive) h
 
 /-! ### from blocks to files -/
 
@@ -148,18 +150,23 @@ def readLines (v : Bool) : Nat → List TFile → List Str
 /-- the extractor over the blocks of a list of files, however each file was cut into data blocks:
     every file written once, in order, its content the concatenation of its data blocks -/
 theorem readLoop_tfiles (dir : Str) (fs : List TFile) : ∀ (s : RState),
-    (∀ f ∈ fs, NameOK f.name f.ext) →
+    (∀ f ∈ fs, NameOK f.name f.ext) → (∀ f ∈ fs, collides s.keep (pathJoin dir f.path) = false) →
     ∃ s', readLoop true dir s (fs.flatMap TFile.frames) = (.ret 0, s')
       ∧ s'.writes = s.writes ++ fs.map (fun f => (pathJoin dir f.path, f.chunks.flatten))
       ∧ s'.out = s.out ++ readLines s.l.verbose s.l.blockIndex fs := by
   induction fs with
-  | nil => intro s _; exact ⟨s, by simp [readLoop], by simp, by simp [readLines]⟩
+  | nil => intro s _ _; exact ⟨s, by simp [readLoop], by simp, by simp [readLines]⟩
   | cons f rest ih =>
-    intro s hn
+    intro s hn hk
     simp only [List.flatMap_cons, TFile.frames]
-    obtain ⟨l', e, hv, hbi⟩ := readLoop_file dir f.name f.ext f.kind f.mode f.chunks (hn f (by simp)) s (rest.flatMap TFile.frames)
+    obtain ⟨l', e, hv, hbi⟩ := readLoop_file dir f.name f.ext f.kind f.mode f.chunks (hn f (by simp)) s (rest.flatMap TFile.frames) (hk f (by simp))
     rw [e]
-    obtain ⟨s', e2, hw, ho⟩ := ih _ (fun f' hf' => hn f' (by simp [hf']))
+    obtain ⟨s', e2, hw, ho⟩ := ih
+      { l := l', keep := s.keep,
+        out := s.out ++ [lineOf s.l.verbose ⟨f.name, f.ext, f.kind, f.mode⟩ (s.l.blockIndex + 1) (f.chunks.map List.length).sum f.chunks.length],
+        desc := some ⟨f.name, f.ext, f.kind, f.mode⟩, content := f.chunks.flatten,
+        writes := s.writes ++ [(pathJoin dir (f.name ++ [46] ++ f.ext), f.chunks.flatten)] }
+      (fun f' hf' => hn f' (by simp [hf'])) (fun f' hf' => hk f' (by simp [hf']))
     refine ⟨s', e2, ?_, ?_⟩
     · rw [hw]; simp [TFile.path]
     · rw [ho]
@@ -181,7 +188,8 @@ theorem readLines_quiet : ∀ (fs : List TFile) (bi : Nat), readLines false bi f
 theorem third_party_tape_read_exactly (pre tail : Bytes) (bs : List Spec.K7.WBlock) (fs : List TFile)
     (hpre : 60 ∉ pre) (ht : 60 ∉ tail) (hwf : ∀ b ∈ bs, b.wf)
     (hfiles : bs.map (fun b => Spec.K7.frame b.ty b.payload) = fs.flatMap TFile.frames)
-    (hn : ∀ f ∈ fs, NameOK f.name f.ext) (v : Bool) (archive : Str) (into : Option Str) :
+    (hn : ∀ f ∈ fs, NameOK f.name f.ext) (v : Bool) (archive : Str) (into : Option Str)
+    (hk : ∀ f ∈ fs, samePath (pathJoin (targetDirOf archive into) f.path) archive = false) :
     (extract v archive into (Spec.K7.render pre bs ++ tail)).status = .ret 0
     ∧ (extract v archive into (Spec.K7.render pre bs ++ tail)).writes
         = fs.map (fun f => (pathJoin (targetDirOf archive into) f.path, f.chunks.flatten))
@@ -190,9 +198,9 @@ theorem third_party_tape_read_exactly (pre tail : Bytes) (bs : List Spec.K7.WBlo
     ∧ (enumerate v (Spec.K7.render pre bs ++ tail)).out = readLines v 0 fs := by
   have hread := read_blocks_padded pre tail bs hpre ht hwf
   rw [hfiles] at hread
-  obtain ⟨sx, ex, hwx, hox⟩ := readLoop_tfiles (targetDirOf archive into) fs { l := { verbose := v } } hn
+  obtain ⟨sx, ex, hwx, hox⟩ := readLoop_tfiles (targetDirOf archive into) fs { l := { verbose := v }, keep := some archive } hn hk
   rw [← hread] at ex
-  have hl := list_extract_agree_dir v (targetDirOf archive into) _ (by rw [ex])
+  have hl := list_extract_agree_dir v (targetDirOf archive into) _ (some archive) (by rw [ex])
   refine ⟨?_, ?_, ?_, hl.1, ?_⟩
   · simp only [extract]; rw [ex]
   · simp only [extract]; rw [ex]; simpa using hwx
